@@ -104,7 +104,10 @@ def failing_node_identity(k):
     cx = tawazi.xn(named(check, "sc_check%d" % k), resource=[Resource.thread, Resource.main_thread, Resource.async_thread][k % 3])
 
     def twice(a, b):
-        return cx(a), cx(b)
+        r1 = cx(a)
+        r2 = cx(b)
+        return r1, r2
+    line_of_second = twice.__code__.co_firstlineno + 2  # the call site of the failing (second) use
     d1 = tawazi.dag(named(twice, "sc_twice%d" % k), max_concurrency=2, is_async=bool(k % 2))
 
     def inner(x):
@@ -122,6 +125,8 @@ def failing_node_identity(k):
             continue
         e = st[1]
         ok = type(e).__name__ == "TawaziBaseException" and ("ExecNode %s at " % exp_id) in str(e) and isinstance(e.__cause__, Bare)
+        if ok and d is d1 and not str(e).rstrip().endswith("%s:%d" % (__file__, line_of_second)):
+            msgs.append("node %s was called at %s:%d, the exception reports: %s" % (exp_id, __file__, line_of_second, str(e)[-120:]))
         if not ok and not isinstance(e, Bare):
             msgs.append("node %s failed with an exception without arguments; the call raised %s: %s (cause %r) instead of tawazi's wrapper naming that node with the node's exception as cause" % (exp_id, type(e).__name__, str(e)[:120], e.__cause__))
     return msgs
